@@ -594,6 +594,8 @@ def worker(args):
         # isolate the hanging case(s): run each case alone under a short watchdog
         for idx, c in enumerate(split_cases(ops)):
             out, e = run_impl("\n".join(c) + "\n", timeout=8)
+            if out is None:      # confirm with a longer watchdog: a loaded machine is not a hang
+                out, e = run_impl("\n".join(c) + "\n", timeout=30)
             if out is None:
                 res["oracle_fail"].append({"case": idx, "verdict": "hang", "ops": c})
                 if len(res["oracle_fail"]) >= 2:
